@@ -24,12 +24,14 @@ import (
 
 func TestMain(m *testing.M) { vkit.Main(m) }
 
-// Req is one request of the victim after CONNECT. K: sub, unsub, pub, presence (victim asks for presence changes), link.
+// Req is one request of the victim after CONNECT. K: sub, unsub, pub, presence (victim asks for presence changes), link,
+// connect (the client sends CONNECT again on the connection it already has; the broker accepts and acknowledges it).
 type Req struct {
 	K      string   `json:"k"`
 	Topics []string `json:"topics,omitempty"`
 	Ch     string   `json:"ch,omitempty"`
 	Auto   bool     `json:"auto,omitempty"`
+	Will   string   `json:"will,omitempty"` // K == "connect": the will variant of a further CONNECT on the same connection
 }
 
 // Session is the victim's session.
@@ -87,6 +89,12 @@ func genSession(t *rapid.T) Session {
 			r.Auto = rapid.Bool().Draw(t, "auto")
 		}
 		s.Reqs = append(s.Reqs, r)
+	}
+	// a further CONNECT somewhere in the session (same client id and user, possibly another will)
+	if rapid.IntRange(0, 9).Draw(t, "reconnect") < 3 {
+		r := Req{K: "connect", Will: rapid.SampledFrom([]string{"none", "ok", "ok", "nowrite", "extend"}).Draw(t, "will2")}
+		at := rapid.IntRange(0, len(s.Reqs)).Draw(t, "reconnectAt")
+		s.Reqs = append(s.Reqs[:at], append([]Req{r}, s.Reqs[at:]...)...)
 	}
 	return s
 }
@@ -231,29 +239,34 @@ func enc(p packets.ControlPacket) []byte {
 
 func (e *env) serialise(s Session) []pkt {
 	var out []pkt
-	c := packets.NewControlPacket(packets.Connect).(*packets.ConnectPacket)
-	c.ProtocolName, c.ProtocolVersion, c.ClientIdentifier, c.CleanSession, c.Keepalive = "MQTT", 4, "victim", true, 30
-	if s.User != "" {
-		c.UsernameFlag, c.Username = true, s.User
-	}
-	if s.Will != "none" {
-		c.WillFlag, c.WillMessage, c.WillRetain = true, []byte("last-will-of-victim"), s.WillRet
-		switch s.Will {
-		case "ok":
-			c.WillTopic = e.key + "/will/"
-		case "nowrite":
-			c.WillTopic = e.keyR + "/will/"
-		case "badtopic":
-			c.WillTopic = e.key + "/will"
-		case "extend":
-			c.WillTopic = e.keyExt + "/will/"
+	connect := func(will string, n int) []byte {
+		c := packets.NewControlPacket(packets.Connect).(*packets.ConnectPacket)
+		c.ProtocolName, c.ProtocolVersion, c.ClientIdentifier, c.CleanSession, c.Keepalive = "MQTT", 4, "victim", true, 30
+		if s.User != "" {
+			c.UsernameFlag, c.Username = true, s.User
 		}
+		if will != "none" {
+			c.WillFlag, c.WillMessage, c.WillRetain = true, []byte(willPayload(n)), s.WillRet
+			switch will {
+			case "ok":
+				c.WillTopic = e.key + "/will/"
+			case "nowrite":
+				c.WillTopic = e.keyR + "/will/"
+			case "badtopic":
+				c.WillTopic = e.key + "/will"
+			case "extend":
+				c.WillTopic = e.keyExt + "/will/"
+			}
+		}
+		return enc(c)
 	}
-	out = append(out, pkt{raw: enc(c), acked: true})
+	out = append(out, pkt{raw: connect(s.Will, 0), acked: true})
 	for i := range s.Reqs {
 		r := &s.Reqs[i]
 		id := uint16(i + 10)
 		switch r.K {
+		case "connect":
+			out = append(out, pkt{raw: connect(r.Will, i+1), acked: true, req: r})
 		case "sub":
 			p := packets.NewControlPacket(packets.Subscribe).(*packets.SubscribePacket)
 			p.MessageID = id
@@ -284,6 +297,53 @@ func (e *env) serialise(s Session) []pkt {
 		}
 	}
 	return out
+}
+
+// willPayload is the will message of the n-th CONNECT of the session (0 = the first).
+func willPayload(n int) string {
+	if n == 0 {
+		return "last-will-of-victim"
+	}
+	return fmt.Sprintf("last-will-of-victim-%d", n)
+}
+
+// wantWill: which will publications are acceptable once the connection has ended, given the CONNECTs the broker has
+// served (the first plus the first `served` requests). A will supplied by the most recent CONNECT with a key that may
+// publish must be published exactly once; if the most recent CONNECT carried none (or an unusable one) while an
+// earlier one did, the statement does not say whether the earlier will still counts: none or that one are accepted.
+func wantWill(s Session, pk []pkt, served int) (must string, may []string) {
+	last, n := s.Will, 0
+	var earlier []string
+	for i := 1; i <= served && i < len(pk); i++ {
+		if r := pk[i].req; r.K == "connect" {
+			if last == "ok" {
+				earlier = append(earlier, willPayload(n))
+			}
+			last, n = r.Will, i
+		}
+	}
+	if last == "ok" {
+		return willPayload(n), nil
+	}
+	return "", earlier
+}
+
+// checkWill compares what the bystander received (after the victim's own publishes) with wantWill.
+func checkWill(gotBy, wantBy []string, must string, may []string) string {
+	if must != "" {
+		wantBy = append(append([]string{}, wantBy...), "will/|"+must)
+	} else if len(gotBy) == len(wantBy)+1 {
+		for _, m := range may {
+			if gotBy[len(gotBy)-1] == "will/|"+m {
+				gotBy = gotBy[:len(gotBy)-1]
+				break
+			}
+		}
+	}
+	if fmt.Sprint(gotBy) != fmt.Sprint(wantBy) {
+		return fmt.Sprintf("bystander (will watcher) received %v, expected %v", gotBy, wantBy)
+	}
+	return ""
 }
 
 var endings = map[string][]byte{
@@ -390,8 +450,9 @@ func oneRun(e *env, s Session, pk []pkt, cut int, ending string) string {
 		}
 	}
 	sort.Strings(closing)
-	if complete >= 1 && s.Will == "ok" {
-		wantBy = append(wantBy, "will/|last-will-of-victim")
+	must, may := "", []string(nil)
+	if complete >= 1 {
+		must, may = wantWill(s, pk, complete-1)
 	}
 	// ---- observations
 	got, err := e.by.Barrier()
@@ -402,8 +463,8 @@ func oneRun(e *env, s Session, pk []pkt, cut int, ending string) string {
 	for _, p := range got {
 		gotBy = append(gotBy, p.TopicName+"|"+string(p.Payload))
 	}
-	if fmt.Sprint(gotBy) != fmt.Sprint(wantBy) {
-		return fmt.Sprintf("bystander (will watcher) received %v, expected %v (will variant %q, %d complete packets)", gotBy, wantBy, s.Will, complete)
+	if msg := checkWill(gotBy, wantBy, must, may); msg != "" {
+		return fmt.Sprintf("%s (will variant %q, %d complete packets)", msg, s.Will, complete)
 	}
 	if d := dump(e.b); fmt.Sprint(d) != fmt.Sprint(e.baseline) {
 		return fmt.Sprintf("subscription index after the connection ended has %d entries, baseline %d: %v vs %v; victim held %v", len(d), len(e.baseline), d, e.baseline, keysOf(held))
